@@ -69,6 +69,7 @@
 #define VERIF_WRITE_DNS_HOOK(fd, q, data, datalen, downenc) 0
 #define VERIF_DISPATCH_HINT(in, q, domain_len)
 #define VERIF_USERID_HINT(userid)
+#define VERIF_TOUSER_HINT(touser)
 #endif
 
 #ifdef WINDOWS32
@@ -666,6 +667,7 @@ static int tunnel_tun(int tun_fd, struct dnsfd *dns_fds)
 	/* find target ip in packet, in is padded with 4 bytes TUN header */
 	header = (struct ip*) (in + 4);
 	userid = find_user_by_ip(header->ip_dst.s_addr);
+	VERIF_TOUSER_HINT(userid);
 	if (userid < 0)
 		return 0;
 
@@ -1894,6 +1896,7 @@ handle_full_packet(int tun_fd, struct dnsfd *dns_fds, int userid)
 
 		hdr = (struct ip*) (out + 4);
 		touser = find_user_by_ip(hdr->ip_dst.s_addr);
+		VERIF_TOUSER_HINT(touser);
 
 		if (touser == -1) {
 			/* send the uncompressed packet to tun device */
